@@ -131,6 +131,10 @@ def build(r):
             col = r.choice([x for x in ['p6', 'p7'] if x not in used_cols] or ['p8'])
             used_cols.add(col)
             q.conj.append({'kind': k, 'text': f'(m.{col} = {c} AND t.id > {c + 1000})', 'consts': [c, c + 1000], 'model_arg': (col, c), 'nested': True})
+    # the same conjunct written twice (generated SQL does that): both copies are the same condition
+    dupable = [c for c in q.conj if c['kind'] in ('model-eq', 'table-cmp', 'table-in')]
+    if dupable and r.random() < 0.2:
+        q.conj.append(dict(r.choice(dupable), duplicate=True))
     r.shuffle(q.conj)
     targets = r.choice(['t.id, m.y', 't.id, t.a, m.y AS pred', 'm.y'])
     s = f'SELECT {targets} FROM {frm}'
@@ -142,7 +146,16 @@ def build(r):
         opts = r.sample([('a', 7001), ('m.b', 7002), ('Mode', 7003), ('t.c', 7004), ('M.Key', 7005), ('deep', 7006), ('m.max_tokens', 7007),
                          ('m.m', 7008), ('m.mm_2', 7009), ('max_m', 7010), ('m.prompt.template', 7011), ('m.a.b.c', 7012), ('x.y.z', 7013),
                          ('`m`.bq', 7014), ('m.`d.e`', 7015)], r.randint(1, 3))
-        s += ' USING ' + ', '.join(f'{k} = {v}' for k, v in opts)
+        # values of every kind an option can take; strings spelled like keywords / numbers stay strings
+        VALS = [("'true'", 'true'), ("'NULL'", 'NULL'), ("'False'", 'False'), ('true', True), ('null', None), ('1.5', 1.5), ("'7'", '7'), ("'x y'", 'x y'),
+                ("[1, 'null']", [1, 'null']), ('{"j": "true", "n": null}', {'j': 'true', 'n': None}), ("''", ''), ('false', False), ("'1e5'", '1e5')]
+        lits = {}
+        for j, (k, v) in enumerate(list(opts)):
+            if r.random() < 0.4:
+                lit, val = VALS[(v + j) % len(VALS)]
+                lits[k] = lit
+                opts[j] = (k, val)
+        s += ' USING ' + ', '.join(f'{k} = {lits.get(k, v)}' for k, v in opts)
         for k, v in opts:
             k = k.replace('`', '')
             if '.' in k:
@@ -322,8 +335,8 @@ def judge(q, plan):
     # (e) USING
     if q.has_using:
         got = {str(k).lower(): v for k, v in (ap.params or {}).items()}
-        if got != q.using:
-            out.append(({'cond': 'using-options'}, {'expected': q.using, 'got': repr(ap.params)}))
+        if core.canon(got) != core.canon(q.using):      # typed comparison: 1 / True / '1' are three different option values
+            out.append(({'cond': 'using-options'}, {'expected': repr(q.using), 'got': repr(ap.params)}))
     elif ap.params:
         out.append(({'cond': 'using-options-invented'}, {'got': repr(ap.params)}))
     # (f) columns map
